@@ -697,8 +697,17 @@ mod for_trait_object {
             return Err(E::invalid_slice_layout());
         };
 
+        // `prepare_allocation` makes the chunk that fits the request the current one.
+        // Reserving must not do that, it only makes sure that the capacity exists.
+        let checkpoint = bump.checkpoint();
+
         match bump.prepare_allocation(layout) {
-            Ok(_) => Ok(()),
+            Ok(_) => {
+                // SAFETY: the checkpoint was just created by this allocator, nothing has been allocated or
+                // reset since, and a successful `prepare_allocation` means that it is not claimed.
+                unsafe { bump.reset_to(checkpoint) };
+                Ok(())
+            }
             Err(AllocError) => Err(request_failed(&bump, layout)),
         }
     }
